@@ -52,6 +52,13 @@ def run(P, rep, tier):
     rep.floor("C14.R2", 6)
     rep.floor("C14.R3", 3)
     rep.floor("C14.R4", 6)
+    # refinement against the pinned tree for every function the rules above looked at (rules/pinned.py)
+    import os as _os
+
+    if not _os.environ.get("MDSA_PINNED_GEN"):
+        from .pinned import refine
+
+        refine(P, rep, ctx, "C14")
 
 
 # ------------------------------------------------------------------------------------------- R1
